@@ -381,7 +381,7 @@ func runCMaps(c *fw.Ctx) {
 		}
 		runWitness(c, id, w)
 	}
-	n := c.N(8000, 300000)
+	n := c.N(8000, 200000)
 	c.Parallel(n, func(i int) {
 		id := fmt.Sprintf("cmap:%d", i)
 		if !c.Want(id) {
